@@ -228,6 +228,89 @@ func (g *gen) compound(noise bool) Group {
 	return gr
 }
 
+// ---------- record groups that are not led by their SYSCALL record ----------
+
+// leadRecords: records the kernel logs BEFORE the SYSCALL record of the same event (LSM decisions, seccomp actions,
+// anomalies, configuration changes ...).  aucoalesce classifies a compound event by the record that leads the group,
+// so the record order inside a group is part of what "the audit event" is.  The bodies follow the kernel's formats
+// (go-libaudit's own test data and audit-userspace); %[1]d = pid, %[2]s = auid, %[3]s = ses.
+var leadRecords = []struct{ typ, body string }{
+	{"AVC", `avc:  denied  { getattr } for  pid=%[1]d comm="cat" path="/etc/shadow" dev="dm-0" ino=284133 scontext=unconfined_u:unconfined_r:unconfined_t:s0 tcontext=system_u:object_r:shadow_t:s0 tclass=file permissive=0`},
+	{"AVC", `avc:  granted  { execute } for  pid=%[1]d comm="sh" name="tool" dev="dm-0" ino=9921 scontext=user_u:user_r:user_t:s0 tcontext=system_u:object_r:bin_t:s0 tclass=file`},
+	{"AVC", `apparmor="DENIED" operation="open" profile="/usr/bin/man" name="/etc/shadow" pid=%[1]d comm="man" requested_mask="r" denied_mask="r" fsuid=1000 ouid=0`},
+	{"AVC", `apparmor="ALLOWED" operation="ptrace" profile="docker-default" pid=%[1]d comm="metricbeat" requested_mask="trace" denied_mask="trace" peer="unconfined"`},
+	{"APPARMOR_DENIED", `apparmor="DENIED" operation="exec" profile="/usr/sbin/tcpdump" name="/usr/bin/id" pid=%[1]d comm="tcpdump" requested_mask="x" denied_mask="x" fsuid=0 ouid=0`},
+	{"APPARMOR_AUDIT", `apparmor="AUDIT" operation="unlink" profile="docker-nginx" name="/var/lib/apt/lists/partial/x" pid=%[1]d comm="apt-get" requested_mask="d" fsuid=100 ouid=100`},
+	{"APPARMOR_ALLOWED", `apparmor="ALLOWED" operation="mknod" profile="/usr/bin/evince" name="/tmp/a" pid=%[1]d comm="evince" requested_mask="c" denied_mask="c" fsuid=1000 ouid=1000`},
+	{"SELINUX_ERR", `op=security_compute_sid invalid_context="unconfined_u:system_r:x_t:s0" scontext=unconfined_u:unconfined_r:unconfined_t:s0 tcontext=system_u:object_r:bin_t:s0 tclass=process`},
+	{"SECCOMP", `auid=%[2]s uid=1000 gid=1000 ses=%[3]s pid=%[1]d comm="chrome" exe="/opt/google/chrome/chrome" sig=0 arch=c000003e syscall=273 compat=0 ip=0x7f4f9f0a1b2d code=0x50000`},
+	{"SECCOMP", `auid=%[2]s uid=0 gid=0 ses=%[3]s pid=%[1]d comm="sshd" exe="/usr/sbin/sshd" sig=31 arch=c000003e syscall=2 compat=0 ip=0x7f1c2b3a4d5e code=0x0`},
+	{"ANOM_ABEND", `auid=%[2]s uid=48 gid=48 ses=%[3]s pid=%[1]d comm="httpd" exe="/usr/sbin/httpd" reason="memory violation" sig=11 res=1`},
+	{"ANOM_PROMISCUOUS", `dev=ens4 prom=256 old_prom=0 auid=%[2]s uid=0 gid=0 ses=%[3]s`},
+	{"ANOM_LINK", `op=follow_link ppid=1 pid=%[1]d auid=%[2]s uid=1000 gid=1000 euid=1000 suid=1000 fsuid=1000 egid=1000 sgid=1000 fsgid=1000 tty=pts0 ses=%[3]s comm="ln" exe="/usr/bin/ln" res=0`},
+	{"ANOM_CREAT", `op=open_fifo ppid=1 pid=%[1]d auid=%[2]s uid=1000 gid=1000 euid=1000 suid=1000 fsuid=1000 egid=1000 sgid=1000 fsgid=1000 tty=pts0 ses=%[3]s comm="mkfifo" exe="/usr/bin/mkfifo" res=0`},
+	{"NETFILTER_CFG", `table=filter family=2 entries=4`},
+	{"NETFILTER_CFG", `table=nat:7 family=2 entries=1 op=nft_register_rule pid=%[1]d comm="iptables"`},
+	{"CONFIG_CHANGE", `auid=%[2]s ses=%[3]s op=add_rule key="operator-commands" list=4 res=1`},
+	{"CONFIG_CHANGE", `auid=%[2]s ses=%[3]s op=remove_rule key=(null) list=4 res=0`},
+	{"MAC_STATUS", `enforcing=0 old_enforcing=1 auid=%[2]s ses=%[3]s enabled=1 old-enabled=1 lsm=selinux res=1`},
+	{"MAC_POLICY_LOAD", `auid=%[2]s ses=%[3]s lsm=selinux res=1`},
+	{"MAC_CONFIG_CHANGE", `bool=httpd_can_network_connect val=1 old_val=0 auid=%[2]s ses=%[3]s`},
+	{"KERN_MODULE", `name="nf_tables"`},
+	{"INTEGRITY_DATA", `pid=%[1]d uid=0 auid=%[2]s ses=%[3]s op=appraise_data cause=invalid-hash comm="bash" name="/usr/local/bin/x" dev="dm-0" ino=4711 res=0`},
+	{"INTEGRITY_RULE", `file="/usr/bin/evil" hash="sha256:0011aabb" ppid=1 pid=%[1]d auid=%[2]s uid=0 gid=0 euid=0 suid=0 fsuid=0 egid=0 sgid=0 fsgid=0 tty=pts0 ses=%[3]s comm="evil" exe="/usr/bin/evil"`},
+	{"BPF", `prog-id=42 op=LOAD`},
+	{"FANOTIFY", `resp=2`},
+	{"FEATURE_CHANGE", `ver=1 auid=%[2]s ses=%[3]s feature=loginuid_immutable old=0 new=1 old_lock=0 new_lock=1 res=1`},
+	{"TIME_INJOFFSET", `sec=0 nsec=291547`},
+	{"KERNEL_OTHER", `op=note pid=%[1]d`},
+}
+
+// auxRecords: records the kernel logs AFTER the SYSCALL record (the group is then led by SYSCALL and these only add data)
+var auxRecords = []struct{ typ, body string }{
+	{"MMAP", `fd=3 flags=0x2`},
+	{"CAPSET", `pid=%[1]d cap_pi=0000000000000000 cap_pp=0000000000003000 cap_pe=0000000000003000 cap_pa=0`},
+	{"BPRM_FCAPS", `fver=0 fp=0000000000000000 fi=0000000000000000 fe=0 old_pp=0000000000000000 old_pi=0000000000000000 old_pe=0000000000000000 old_pa=0000000000000000 pp=00000000a80425fb pi=0000000000000000 pe=00000000a80425fb pa=0000000000000000 frootid=0`},
+	{"OBJ_PID", `opid=%[1]d oauid=%[2]s ouid=1000 oses=%[3]s ocomm="sleep"`},
+	{"FD_PAIR", `fd0=3 fd1=4`},
+	{"SOCKETCALL", `nargs=3 a0=2 a1=1 a2=0`},
+	{"IPC", `ouid=0 ogid=0 mode=0666`},
+	{"AVC", `avc:  denied  { read } for  pid=%[1]d comm="cat" name="shadow" dev="dm-0" ino=284133 scontext=unconfined_u:unconfined_r:unconfined_t:s0 tcontext=system_u:object_r:shadow_t:s0 tclass=file permissive=1`},
+	{"SECCOMP", `auid=%[2]s uid=1000 gid=1000 ses=%[3]s pid=%[1]d comm="x" exe="/usr/bin/x" sig=0 arch=c000003e syscall=1 compat=0 ip=0x7f0000000001 code=0x7ffc0000`},
+}
+
+// special builds a compound group in which a record other than SYSCALL comes first (1 to 2 such records, in the
+// kernel's order: before the SYSCALL record), or in which further records follow the SYSCALL record.  What the
+// generator knows about the group (session, result, arguments) is what its SYSCALL / EXECVE records say.
+func (g *gen) special(noise bool) Group {
+	gr := g.compound(noise)
+	h := func(t string) string { return g.hdr(t, gr.Sec, gr.Msec, gr.Seq) }
+	pid := 20000 + g.r.Intn(10000)
+	rec := func(typ, body string) string { return h(typ) + fmt.Sprintf(body, pid, g.auid, gr.Ses) }
+	if gr.Ses == "" {
+		rec = func(typ, body string) string {
+			return h(typ) + strings.ReplaceAll(fmt.Sprintf(body, pid, g.auid, "@none@"), " ses=@none@", "")
+		}
+	}
+	if g.r.Chance(1, 4) {
+		// SYSCALL stays in front; auxiliary records follow it
+		a := hutil.Pick(g.r, auxRecords)
+		gr.Kind = "aux-" + a.typ
+		rest := append([]string{rec(a.typ, a.body)}, gr.Lines[1:]...)
+		gr.Lines = append(gr.Lines[:1:1], rest...)
+		return gr
+	}
+	lead := hutil.Pick(g.r, leadRecords)
+	gr.Kind, gr.Type = "special-"+lead.typ, lead.typ
+	front := []string{rec(lead.typ, lead.body)}
+	if g.r.Chance(1, 4) { // e.g. two AVC records for one syscall
+		l2 := hutil.Pick(g.r, leadRecords)
+		front = append(front, rec(l2.typ, l2.body))
+	}
+	gr.Lines = append(front, gr.Lines...)
+	return gr
+}
+
 var userTypes = []string{"USER_CMD", "USER_START", "USER_END", "CRED_ACQ", "CRED_REFR", "USER_AUTH", "USER_ACCT",
 	"USER_LOGIN", "USER_LOGOUT", "USER_ERR", "USER_CHAUTHTOK", "USER_ROLE_CHANGE", "LOGIN"}
 
@@ -352,7 +435,9 @@ func genScenario(r *hutil.Rand, long bool) Scenario {
 	}
 	for i := 0; i < n; i++ {
 		noise := r.Chance(1, 9)
-		if r.Chance(1, 2) {
+		if r.Chance(1, 5) {
+			sc.Groups = append(sc.Groups, g.special(noise))
+		} else if r.Chance(1, 2) {
 			sc.Groups = append(sc.Groups, g.compound(noise))
 		} else {
 			sc.Groups = append(sc.Groups, g.simple(hutil.Pick(r, userTypes), noise))
